@@ -105,6 +105,14 @@ def own_corpus():
         "factors": [b3, a], "constraints": [{"id": 0, "kind": "Exclude", "level": [0, "r"]}],
         "blocks": [{"id": 0, "kind": "MultiCrossBlock", "design": [0, 1], "crossings": [[0, 1], [0]], "constraints": [0], "rcc": False,
                     "mode": "repeat", "alignment": "equal preamble"}], "main": 0}))
+    # numeric level names, including the falsy ones 0 and 0.0 (a level named 0 is not the empty cell;
+    # seed C17-falsy-level-name-blank)
+    for tag, names in (("int", [0, 1]), ("float", [0.0, 0.5])):
+        num = {"id": 0, "name": "n", "kind": "simple", "levels": [[names[0], 1], [names[1], 1]]}
+        out.append(("numeric-level-names-" + tag, {
+            "factors": [num, a], "constraints": [{"id": 0, "kind": "AtMostKInARow", "k": 1, "level": [0, names[0]]}],
+            "blocks": [{"id": 0, "kind": "CrossBlock", "design": [0, 1], "crossing": [0, 1], "constraints": [0], "rcc": True}],
+            "main": 0}))
     # pins
     for idx in (0, -1, 3, 4, -4, -5):
         out.append(("pin-%d" % idx, {
